@@ -12,7 +12,7 @@ import (
 
 // Call is one call of the identity manager API (serialisable).
 type Call struct {
-	M  string `json:"m"`           // AddGroup AddUser DelUser DelGroup LookupGroup LookupGroupId LookupUser LookupUserId
+	M  string `json:"m"`           // AddGroup AddUser DelUser DelGroup LookupGroup LookupGroupId LookupUser LookupUserId; accessors: AdminUser AdminGroup
 	A  string `json:"a,omitempty"` // group name (group calls) or user name (user calls)
 	B  string `json:"b,omitempty"` // primary group name of AddUser
 	ID int    `json:"id"`          // id of LookupGroupId / LookupUserId
@@ -24,6 +24,8 @@ func (c Call) String() string {
 		return fmt.Sprintf("AddUser(%q,%q)", c.A, c.B)
 	case "LookupGroupId", "LookupUserId":
 		return fmt.Sprintf("%s(%d)", c.M, c.ID)
+	case "AdminUser", "AdminGroup":
+		return c.M + "()"
 	}
 
 	return fmt.Sprintf("%s(%q)", c.M, c.A)
@@ -38,6 +40,18 @@ func (c Call) goStmt(observe bool) string {
 		call = fmt.Sprintf("idm.AddUser(%q, %q)", c.A, c.B)
 	case "LookupGroupId", "LookupUserId":
 		call = fmt.Sprintf("idm.%s(%d)", c.M, c.ID)
+	case "AdminUser":
+		if observe {
+			return "u := idm.AdminUser()\n\tt.Logf(\"name=%s uid=%d gid=%d IsAdmin=%v\", u.Name(), u.Uid(), u.Gid(), u.IsAdmin())"
+		}
+
+		return "_ = idm.AdminUser()"
+	case "AdminGroup":
+		if observe {
+			return "g := idm.AdminGroup()\n\tt.Logf(\"name=%s gid=%d\", g.Name(), g.Gid())"
+		}
+
+		return "_ = idm.AdminGroup()"
 	default:
 		call = fmt.Sprintf("idm.%s(%q)", c.M, c.A)
 	}
@@ -165,6 +179,10 @@ func execCall(idm avfs.IdentityMgr, c Call) (o Outcome) {
 			u, err = idm.LookupUser(c.A)
 		case "LookupUserId":
 			u, err = idm.LookupUserId(c.ID)
+		case "AdminUser":
+			u = idm.AdminUser()
+		case "AdminGroup":
+			g = idm.AdminGroup()
 		default:
 			panic("c15 harness: unknown call " + c.M)
 		}
